@@ -26,6 +26,10 @@ fn key_types(tier: Tier) -> Vec<KeyType> {
         KeyType { name: "int", sql: "INT", lits: ["1", "2"], numeric: true },
         KeyType { name: "text", sql: "TEXT", lits: ["'x'", "'long-string-13b'"], numeric: false },
     ];
+    if !tier.is_thorough() {
+        // quick: DATE keys with <= 1 row per side (`date_col IN (SELECT date_col ..)` once failed to plan at all)
+        v.push(KeyType { name: "date", sql: "DATE", lits: ["CAST('2024-02-29' AS DATE)", "CAST('1970-01-01' AS DATE)"], numeric: false });
+    }
     if tier.is_thorough() {
         v.extend([
             // typed literals: a VALUES list takes the types of its first row (1 would make the column INT)
@@ -61,10 +65,10 @@ fn forms(kt: &KeyType, full: bool) -> Vec<(String, Query)> {
         ("eq-rev", Some(bin(Op::Eq, rk(), lk()))),
         ("lt-rev", Some(bin(Op::Gt, rk(), lk()))),
         ("notdistinct-rev", Some(bin(Op::NotDistinct, rk(), lk()))),
+        ("eq-notdistinct", Some(bin(Op::NotDistinct, lk(), rk()))),
     ];
     if full {
         conds.push(("ne", Some(bin(Op::Ne, lk(), rk()))));
-        conds.push(("eq-notdistinct", Some(bin(Op::NotDistinct, lk(), rk()))));
         conds.push(("ponly", Some(bin(Op::Eq, lp(), rq()))));
     }
     if kt.numeric {
@@ -413,6 +417,9 @@ pub fn run(tier: Tier) -> i32 {
             for ri in 0..s.len() {
                 // quick: all pairs for int keys, pairs with <= 2 rows per side for the others
                 if tier == Tier::Quick && ki > 0 && (s[li].rows.len() > 2 || s[ri].rows.len() > 2) {
+                    continue;
+                }
+                if tier == Tier::Quick && ki > 1 && (s[li].rows.len() > 1 || s[ri].rows.len() > 1) {
                     continue;
                 }
                 work.push((ki, li, ri));
